@@ -206,6 +206,8 @@ fn observe(f: &Field, v: &Val, map: &[(String, Node)], key: &str, spec: &Spec, o
             let mask: u128 = if *w >= 8 { u128::MAX } else { (1u128 << (8 * w)) - 1 };
             let got: Option<u128> = if let Some(c) = unescape_char(&leaf) { Some(c as u128) } else if leaf == "true" { Some(1) } else if leaf == "false" { Some(0) }
                 else if let Ok(i) = leaf.parse::<i128>() { Some((i as u128) & mask) }
+                // an address shown as a dotted quad: the number it stands for (a.b.c.d = a<<24 | b<<16 | c<<8 | d, the value of the `unsigned` field)
+                else if let (4, Ok(ip)) = (*w, leaf.parse::<std::net::Ipv4Addr>()) { Some(u32::from(ip) as u128) }
                 else if *w == 4 && leaf.parse::<f32>().is_ok() && (leaf.contains('.') || leaf.contains('e') || leaf == "inf" || leaf == "NaN") { let want = format!("{:?}", f32::from_bits(*x as u32)); obs.checked += 1; return if want == leaf { None } else { Some(format!("float field shows {leaf}, the frame carries {want}")) } }
                 else { None };
             match got { None => { obs.unobservable += 1; None }, Some(g) => { obs.checked += 1; if g == *x as u128 || (leaf == "true" && *x != 0) { None } else { Some(format!("shows {leaf} but the frame carries {x}")) } } }
